@@ -21,7 +21,7 @@ META = dict(
     assumptions=['histories are sequences of accesses from a finite alphabet (index of either sign, key, slice-then-index, full iteration, through copy(), through copy(freeze=True) = the '
                  'thread-prefetch path); the history is structural, the values / memory readings / threshold are symbolic',
                  'real concurrent access to the cache dict is outside (threads are not modelled here)'],
-    bounds=dict(quick='n = 2 examples, histories of length <= 3 over 9 access kinds', thorough='n = 3, histories of length <= 3; n = 2, length 4'),
+    bounds=dict(quick='n = 2 examples, histories of length <= 3 over 13 access kinds; n = 3: an iterator in flight interleaved with every other access kind', thorough='n = 3, histories of length <= 3; n = 2, length 4'),
     outside=['histories longer than the bound', 'concurrent access'],
 )
 
@@ -78,11 +78,28 @@ class _Mem:
         return types.SimpleNamespace(available=r, total=1 << 40)
 
 
-ACCESS = ['i0', 'i1', 'ilast', 'neg1', 'negn', 'k0', 'k1', 'sl', 'iter', 'copy_i0', 'fcopy_i1', 'fcopy_neg1', 'items']
+ACCESS = ['i0', 'i1', 'ilast', 'neg1', 'negn', 'k0', 'k1', 'sl', 'iter', 'copy_i0', 'fcopy_i1', 'fcopy_neg1', 'items', 'it_next', 'it_rest']
 
 
-def _do_access(cache, kind, n):
+def _do_access(cache, kind, n, state=None):
     """-> list of (example index, returned value)"""
+    if kind in ('it_next', 'it_rest'):
+        # one iterator of the cache that stays in flight across other accesses: (iterator, number of examples taken)
+        if state.get('it') is None:
+            state['it'] = iter(cache)
+            state['pos'] = 0
+        out = []
+        while True:
+            try:
+                v = next(state['it'])
+            except StopIteration:
+                state['it'] = None
+                break
+            out.append((state['pos'], v))
+            state['pos'] += 1
+            if kind == 'it_next':
+                break
+        return out
     if kind == 'i0':
         return [(0, cache[0])]
     if kind == 'i1':
@@ -132,10 +149,11 @@ def body_history(n, hist, thr, *args):
         cache = CacheDataset(up, keep_mem_free=thr)
         first = {}          # example -> first computed value
         frozen = {}         # example -> value that must be returned from now on (cached while memory permitted)
+        state = {}
         for kind in hist:
             calls_before = len(log)
             reads_before = mem.calls
-            res = _do_access(cache, kind, n)
+            res = _do_access(cache, kind, n, state)
             for e, v in res:
                 produced = [vals[j] for j in range(len(log)) if log[j] == e]
                 if not any(v == p for p in produced):
@@ -234,6 +252,10 @@ def _hist_conds(tier, seed):
         core_ = ['i1', 'neg1', 'k1', 'sl', 'iter', 'copy_i0', 'fcopy_i1', 'negn']
         for h in itertools.product(core_, repeat=3):
             out.append((2, h))
+        # an iterator in flight, interleaved with other accesses (n = 3 so that the iterator is still part-way through)
+        for mid in ('i1', 'ilast', 'neg1', 'k1', 'sl', 'copy_i0', 'fcopy_i1', 'iter', 'it_next'):
+            out.append((3, ('it_next', mid, 'it_rest')))
+            out.append((3, ('it_next', mid, 'it_rest', 'iter')))
     else:
         for L in (1, 2, 3):
             for h in itertools.product(ACCESS, repeat=L):
